@@ -55,6 +55,9 @@ Strides(ty)   == IF Wide THEN {SizeOf(ty) - 1, SizeOf(ty), SizeOf(ty) + 1} \cup 
                  ELSE {0, 1, 2, 3, 4, SizeOf(ty) + 1}
 CacheTypes    == IF Wide THEN {"u8u16","q1248","ntq4182"} ELSE {"u8","u16","u8u16","ntt412"}
 DepSizes      == {0, 1, 2, 3}
+DepVSizes     == {0, 1, 2}         \* the validating dependent type
+DepTTypes     == IF Wide THEN {"p81", "q1248"} ELSE {"u8", "u32", "t124"}    \* read_array_dep::<T>(n, ())
+EmptyTypes    == IF Wide THEN {"q1248", "ts132"} ELSE {"u8", "u24", "u8u16"} \* ReadArray::<T>::empty()
 Nibbles       == {0, 1, 2, 9, 15}
 NoKey         == <<>>
 
@@ -62,6 +65,9 @@ NoKey         == <<>>
 \* harness's own ReadFixedSizeDep type whose size is an argument).
 TyOf(t) == LET ks == {k \in 1 .. Len(path) : path[k].made = t} IN
            IF ks = {} THEN "" ELSE path[CHOOSE k \in ks : TRUE].o.ty
+\* the operation that made object t ("" for the root)
+MadeBy(t) == LET ks == {k \in 1 .. Len(path) : path[k].made = t} IN
+             IF ks = {} THEN "" ELSE path[CHOOSE k \in ks : TRUE].o.op
 
 \* the scopes among the objects made so far (for ==)
 ScopesOf == {u \in DOMAIN st.objs : st.objs[u].kind = "scope"}
@@ -74,10 +80,15 @@ ScopeOps(t, s) ==
   \cup {Op("ReadCache", t, ty, 0, 0, NoKey) : ty \in CacheTypes}
   \cup {Op("ScopeEq", t, "", u, 0, NoKey) : u \in {x \in ScopesOf : ScopeEqKnown(st, t, x)}}
   \cup {Op("ScopeOwned", t, "", 0, 0, NoKey)}
+  \cup {Op("ScopeReadDep", t, "", n, 0, NoKey) : n \in {k \in {0, 1, s.len - 1, s.len, s.len + 1, HUGE} : k >= 0}}
+  \cup (IF t = 1 THEN {Op("EmptyArray", t, ty, 0, 0, NoKey) : ty \in EmptyTypes} ELSE {})
 
 CtxtOps(t, c) ==
        {Op("ReadM", t, ty, 0, 0, NoKey) : ty \in MethodTypes}
   \cup {Op("ReadT", t, ty, 0, 0, NoKey) : ty \in TraitTypes}
+  \cup {Op("ReadB", t, ty, 0, 0, NoKey) : ty \in TraitTypes}
+  \cup {Op("Check", t, "", cond, which, NoKey) : cond \in {0, 1}, which \in {0, 1, 2}}
+  \cup {Op("ReadArrayDepT", t, ty, n, 0, NoKey) : ty \in DepTTypes, n \in CntArgs}
   \cup {Op("ReadScope", t, "", n, 0, NoKey) : n \in LenArgs(c.len - c.off)}
   \cup {Op("ReadSlice", t, "", n, 0, NoKey) : n \in LenArgs(c.len - c.off)}
   \cup {Op("ReadDep", t, "", n, 0, NoKey) : n \in {0, 1, c.len - c.off, c.len - c.off + 1, HUGE}}
@@ -87,8 +98,11 @@ CtxtOps(t, c) ==
   \* (a zero-size element type with a HUGE count is a legal, endless array: not generated)
   \cup {Op("ReadArrayDep", t, "dep", p[1], p[2], NoKey) :
             p \in {q \in CntArgs \X DepSizes : q[2] > 0 \/ ~IsHuge(q[1])}}
+  \cup (IF Wide THEN {} ELSE
+        {Op("ReadArrayDep", t, "depv", p[1], p[2], NoKey) :
+            p \in {q \in CntArgs \X DepVSizes : q[2] > 0 \/ ~IsHuge(q[1])}})
   \cup {Op("ReadUntilNibble", t, "", x, 0, NoKey) : x \in Nibbles}
-  \cup {Op("CtxtScope", t, "", 0, 0, NoKey), Op("BytesAvailable", t, "", 0, 0, NoKey)}
+  \cup {Op("CtxtScope", t, "", 0, 0, NoKey), Op("CtxtClone", t, "", 0, 0, NoKey), Op("BytesAvailable", t, "", 0, 0, NoKey)}
 
 \* keys for binary search: every element, and neighbours of the first and last element
 KeysOf(a) ==
@@ -113,12 +127,13 @@ ArrayOps(t, a) ==
 \* A dependent-size array (created by ReadArrayDep) is read with the harness type "dep";
 \* it supports the ReadFixedSizeDep part of the API only.
 DepArrayOps(t, a) ==
-       {Op("Len", t, "dep", 0, 0, NoKey)}
-  \cup {Op("ReadItem", t, "dep", i, 0, NoKey) : i \in IdxArgs(a.n)}
-  \cup {Op("IterRes", t, "dep", 0, 0, NoKey), Op("ReadToVec", t, "dep", 0, 0, NoKey)}
+  LET ty == TyOf(t) IN
+       {Op("Len", t, ty, 0, 0, NoKey)}
+  \cup {Op("ReadItem", t, ty, i, 0, NoKey) : i \in IdxArgs(a.n) \cup {k \in {2, 3} : k < a.n}}
+  \cup {Op("IterRes", t, ty, 0, 0, NoKey), Op("ReadToVec", t, ty, 0, 0, NoKey)}
   \cup {Op("CheckIndex", t, "", i, 0, NoKey) : i \in IdxArgs(a.n)}
 
-IsDep(t) == TyOf(t) = "dep"
+IsDep(t) == IsDepTy(TyOf(t))
 
 OpsAt(t) ==
   LET x == st.objs[t] IN
@@ -159,7 +174,8 @@ Next == \E o \in OpsAt(focus) : Step(o)
 
 Spec == Init /\ [][Next]_vars
 
-View == <<st.root, st.objs[focus], TyOf(focus)>>
+\* (an array made by ReadArray::empty() is kept apart from the empty arrays read from a context)
+View == <<st.root, st.objs[focus], TyOf(focus), MadeBy(focus) = "EmptyArray">>
 
 ---------------------------------------------------------------------------
 \* Design invariants, checked on every operation offered by every reachable state.
@@ -174,7 +190,7 @@ TransOK(o) ==
   /\ CacheLocated(st, o, r.obs)
   /\ (o.op = "Search" => SearchConforms(st, o.t, o.key, r.obs))
   \* any HUGE argument that matters can only fail or yield nothing
-  /\ (o.op \in {"ReadScope", "ReadSlice", "ReadDep", "GetItem", "ReadItem", "CowGetItem", "CowReadItem",
+  /\ (o.op \in {"ReadScope", "ReadSlice", "ReadDep", "ScopeReadDep", "GetItem", "ReadItem", "CowGetItem", "CowReadItem",
                 "OwnGetItem", "OwnReadItem", "CheckIndex", "CowCheckIndex", "OwnCheckIndex"} /\ IsHuge(o.a)) => ~r.obs.ok
 
 \* SIZE is the sum of the field sizes and the field-wise decoding is the window, for every type at
@@ -201,9 +217,11 @@ EmitCase ==
 \* ---- constants for the configurations --------------------------------------
 Pat(n, b) == [i \in 1 .. n |-> (b + 16 * i + i) % 256]    \* position-identifying bytes
 Inc(n, d) == [i \in 1 .. n |-> d * i]                      \* strictly increasing: every array over it is sorted
-RootsQuick    == {<<>>, <<17>>, Pat(5, 0), Pat(9, 128), Inc(36, 7)}
+\* extreme values of every width: I64 / I32 / I16 / I8 minimum and maximum, U24 with the top bit set
+Bounds == <<128, 0, 0, 0, 0, 0, 0, 0, 127, 255, 255, 255, 255, 255, 255, 255>>
+RootsQuick    == {<<>>, <<17>>, Pat(5, 0), Pat(9, 128), Inc(36, 7), Bounds}
 Dup(n, k)  == [i \in 1 .. n |-> (i - 1) \div k]            \* non-decreasing with runs of k equal bytes
 RootsThorough == {<<>>, <<17>>, Pat(3, 0), Pat(5, 0), Pat(9, 128), Pat(12, 0),
                   <<3, 1, 2, 2, 3, 1, 0, 16, 1, 250>>, <<255, 255, 128, 0, 127, 255, 0, 0>>,
-                  Inc(36, 7), Pat(40, 128), Dup(33, 5), Inc(32, 7), Pat(47, 3)}
+                  Inc(36, 7), Pat(40, 128), Dup(33, 5), Inc(32, 7), Pat(47, 3), Bounds}
 =============================================================================
